@@ -3,9 +3,12 @@
 package pparse
 
 import (
+	"encoding/hex"
+	"encoding/json"
 	"fmt"
 	"runtime/debug"
 	"strings"
+	"unicode/utf8"
 
 	"github.com/robfig/soy"
 	"github.com/robfig/soy/parse"
@@ -18,6 +21,63 @@ type Call struct {
 	Input string   `json:"input,omitempty"`
 	Files []string `json:"files,omitempty"` // compile: several files
 	Kind  string   `json:"kind,omitempty"`  // how the input was derived (for evidence only)
+}
+
+type callJSON struct {
+	Entry    string   `json:"entry"`
+	Input    string   `json:"input,omitempty"`
+	InputHex string   `json:"input_hex,omitempty"` // inputs that are not valid UTF-8 (JSON strings cannot carry them)
+	Files    []string `json:"files,omitempty"`
+	FilesHex []string `json:"files_hex,omitempty"`
+	Kind     string   `json:"kind,omitempty"`
+}
+
+// MarshalJSON keeps inputs byte-exact: JSON would replace invalid UTF-8 by U+FFFD.
+func (c Call) MarshalJSON() ([]byte, error) {
+	j := callJSON{Entry: c.Entry, Kind: c.Kind}
+	if utf8.ValidString(c.Input) {
+		j.Input = c.Input
+	} else {
+		j.InputHex = hex.EncodeToString([]byte(c.Input))
+	}
+	allValid := true
+	for _, f := range c.Files {
+		if !utf8.ValidString(f) {
+			allValid = false
+		}
+	}
+	if allValid {
+		j.Files = c.Files
+	} else {
+		for _, f := range c.Files {
+			j.FilesHex = append(j.FilesHex, hex.EncodeToString([]byte(f)))
+		}
+	}
+	return json.Marshal(j)
+}
+
+// UnmarshalJSON is the inverse of MarshalJSON.
+func (c *Call) UnmarshalJSON(b []byte) error {
+	var j callJSON
+	if err := json.Unmarshal(b, &j); err != nil {
+		return err
+	}
+	c.Entry, c.Kind, c.Input, c.Files = j.Entry, j.Kind, j.Input, j.Files
+	if j.InputHex != "" {
+		raw, err := hex.DecodeString(j.InputHex)
+		if err != nil {
+			return err
+		}
+		c.Input = string(raw)
+	}
+	for _, h := range j.FilesHex {
+		raw, err := hex.DecodeString(h)
+		if err != nil {
+			return err
+		}
+		c.Files = append(c.Files, string(raw))
+	}
+	return nil
 }
 
 // Outcome is what the call did as seen by its caller.
